@@ -34,7 +34,9 @@ def behaviour_script(b):
     if b["kind"] == "signal":
         return "ulimit -c 0\n" + END + f"kill -{b['sig']} $$\nsleep 2\nexit 3\n"
     if b["kind"] == "hold":      # a descendant keeps stdout/stderr open for hold_ms after the exit
-        return END + f"sleep {b['hold_ms'] / 1000:.3f} &\nexit {b['code']}\n"
+        # own_session: the descendant is a daemon that has left the test's process group (setsid)
+        pre = "setsid " if b.get("own_session") else ""
+        return END + f"{pre}sleep {b['hold_ms'] / 1000:.3f} &\nexit {b['code']}\n"
     if b["kind"] == "writer":    # a descendant writes to stdout every period_ms for total_ms after the exit
         n = b["total_ms"] // b["period_ms"]
         return END + (f"( i=0; while [ $i -lt {n} ]; do echo tick; sleep {b['period_ms'] / 1000:.3f}; "
